@@ -130,7 +130,13 @@ class Run:
                 except Exception as e:
                     rep = {"confirmed": False, "detail": "replay crashed: %s" % e, "trace": traceback.format_exc()}
             rec["replay"] = rep
-            self._refuted(ob, rec, rep)
+            if ob.get("meta", {}).get("abstract") and not (rep and rep.get("confirmed")):
+                # the clause is stated over uninterpreted library functions: a counter-model of those is not an input of the real code.
+                # Without a concrete witness from the replay the clause is undecided, never a violation.
+                rec["verdict"] = solver.UNDECIDED; rec["reason"] = "refuted only over uninterpreted library abstractions; the concrete probes found no witness"
+                self.undecided.append(ob["id"] + " (" + rec["reason"] + ")")
+            else:
+                self._refuted(ob, rec, rep)
         else:
             rec["reason"] = r["reason"]
             self.undecided.append(ob["id"] + " (" + r["reason"] + ")")
